@@ -147,7 +147,8 @@ func runBearerCase(cli erpc.Peer, later *laterDial, bc *bearerCase) *bearerOut {
 		waitFor(func() bool {
 			recMu.Lock()
 			defer recMu.Unlock()
-			return recOf(addr).hooks[4] >= bc.nPush
+			// ... and has reached the read it will block in (PreReadHeader precedes every read)
+			return recOf(addr).hooks[4] >= bc.nPush && recOf(addr).hooks[0] >= bc.nPush+1
 		})
 		time.Sleep(2 * time.Millisecond)
 		if !bc.closeAft {
